@@ -58,8 +58,22 @@ func (f *tfile) proof(idx int64) (item []byte, hashList []byte, ok bool) {
 		die(2, "GenerateProof: %v", err)
 	}
 	hashList, _ = json.Marshal(*p)
+	if idx == 0 { // every other proof of chunk 0 is sent without the (zero-valued) "Index" key, as a serialiser that drops zero values writes it
+		omitZeroIndex = !omitZeroIndex
+		if omitZeroIndex {
+			var m map[string]json.RawMessage
+			if json.Unmarshal(hashList, &m) == nil {
+				delete(m, "Index")
+				if b, err := json.Marshal(m); err == nil {
+					hashList = b
+				}
+			}
+		}
+	}
 	return item, hashList, true
 }
+
+var omitZeroIndex bool
 
 type sdPar struct{ I, C, cs, fs, min, price int64 }
 
